@@ -141,13 +141,16 @@ class Batch:
 
 def bridge_text(enums):
     lines = ["#[diplomat::bridge]", "mod ffi {"]
-    for name, spec in enums:
+    for ei, (name, spec) in enumerate(enums):
         lines.append("    " + enum_text(name, spec))
         # one method per enum: `self`, a parameter and the return value are the three use sites where a backend
         # converts to / from the native integer (Dart emits those conversions at the use site only)
         # (JS only) a second method returns the enum inside an Option: the value then reaches JS through wasm memory
-        lines.append("    impl %s { pub fn f(self, o: %s) -> %s { let _ = self; o } #[diplomat::attr(not(js), disable)] pub fn g(self) -> Option<%s> { Some(self) } }"
-                     % (name, name, name, name))
+        # (JS only, every second enum) a method marked as the JS constructor: `new E(..)` then dispatches between the Rust
+        # constructor, the by-value lookup and the from-FFI path, and `fromValue` must still take the lookup
+        ctor = ("#[diplomat::attr(js, constructor)] #[diplomat::attr(not(js), disable)] pub fn mk() -> %s { %s::V0 } " % (name, name)) if int(re.sub(r"\D", "", name) or 0) % 2 == 0 else ""
+        lines.append("    impl %s { pub fn f(self, o: %s) -> %s { let _ = self; o } #[diplomat::attr(not(js), disable)] pub fn g(self) -> Option<%s> { Some(self) } %s}"
+                     % (name, name, name, name, ctor))
     # (Dart only) use sites OUTSIDE the enum's own file: an opaque generated before the enums with one static method per enum
     lines.append("    #[diplomat::opaque]\n    #[diplomat::attr(not(dart), disable)]\n    pub struct ZHost;")
     lines.append("    impl ZHost {")
@@ -434,12 +437,14 @@ for (const [name, vals] of spec) {
     try { r.own_value = obj.value; } catch (e) { r.own_value_err = String(e); }
     try { const x = new E(rt.internalConstructor, n); r.from = nameOf(E, names, x); r.from_value = x === undefined ? null : x.value; r.from_ffi = x.ffiValue; }
     catch (e) { r.from_err = String(e); }
+    // (should the lookup wrongly reach a Rust constructor, the wasm side answers with a different variant)
+    ctl.ret = vals[(i + 1) % vals.length]; ctl.calls = [];
     try { const x = E.fromValue(V); r.by_name = nameOf(E, names, x); } catch (e) { r.by_name_err = String(e); }
     // the generated method: f(self = V0, o = V) with the wasm side answering n
     try {
       ctl.calls = []; ctl.ret = n;
       const y = E[names[0]].f(obj);
-      r.call = ctl.calls;
+      r.call = ctl.calls.slice();
       r.ret = nameOf(E, names, y);
       r.ret_value = (y === undefined || y === null) ? null : y.value;
     } catch (e) { r.call_err = String(e); }
@@ -448,7 +453,7 @@ for (const [name, vals] of spec) {
     catch (e) { r.mem_err = String(e); }
     ctl.mem = null;
     // self position: f(self = V, o = V0)
-    try { ctl.calls = []; ctl.ret = vals[0]; E[V].f(E[names[0]]); r.self_call = ctl.calls; } catch (e) { r.self_call_err = String(e); }
+    try { ctl.calls = []; ctl.ret = vals[0]; E[V].f(E[names[0]]); r.self_call = ctl.calls.slice(); } catch (e) { r.self_call_err = String(e); }
     o.variants.push(r);
   }
 }
